@@ -88,3 +88,20 @@ pub fn silence_panics() {
     }
 }
 
+
+/// scalar values that text-handling code is tempted to treat specially: controls, every kind of white space, format
+/// characters (byte order mark, joiners, directional marks, tags), separators, combining marks, noncharacters, the
+/// edges of the UTF-8 length classes and of the planes
+pub fn special_scalars() -> Vec<char> {
+    let mut v: Vec<u32> = vec![];
+    v.extend(0x00..=0x20);
+    v.extend(0x7F..=0xA0);
+    v.extend([0xAD, 0x300, 0x301, 0x34F, 0x600, 0x605, 0x61C, 0x6DD, 0x70F, 0x7FF, 0x800, 0x8E2, 0x1680, 0x180E]);
+    v.extend(0x2000..=0x200F);
+    v.extend(0x2028..=0x202F);
+    v.extend(0x205F..=0x206F);
+    v.extend([0x20E3, 0x3000, 0x3099, 0x309A, 0x30FB, 0x30FC, 0xD7FF, 0xE000, 0xFE0E, 0xFE0F, 0xFEFF, 0xFF00, 0xFF0F, 0xFF3C, 0xFF5C, 0xFFF9, 0xFFFA, 0xFFFB, 0xFFFC, 0xFFFD, 0xFFFE, 0xFFFF]);
+    v.extend([0x10000, 0x1F3FB, 0x1F1E6, 0x1FFFE, 0x1FFFF, 0x2FFFF, 0xE0001, 0xE0020, 0xE007F, 0xE0100, 0xF0000, 0x10FFFE, 0x10FFFF]);
+    v.extend([0x110BD, 0x1BCA0, 0x1D173]);
+    v.into_iter().filter_map(char::from_u32).collect()
+}
